@@ -96,8 +96,14 @@ func (v *Vue) evalSlot(ctx VueContext, node *html.Node, slotScope *SlotScope) ([
 				ctx.stack.Push(nil)
 				defer ctx.stack.Pop()
 
-				// If there's a scoped variable name, use it; otherwise use the props directly
-				if scopedVarName != "" {
+				// If there's a scoped variable name, use it; a destructuring
+				// pattern ({ item, index } or { item: it }) binds the named
+				// props; otherwise use the props directly
+				if names, aliases, ok := destructuredSlotProps(scopedVarName); ok {
+					for i, name := range names {
+						ctx.stack.Set(aliases[i], slotProps[name])
+					}
+				} else if scopedVarName != "" {
 					ctx.stack.Set(scopedVarName, slotProps)
 				} else {
 					// Set the slot props directly in the context
@@ -152,4 +158,27 @@ func (v *Vue) evalSlot(ctx VueContext, node *html.Node, slotScope *SlotScope) ([
 	}
 
 	return []*html.Node{}, nil
+}
+
+// destructuredSlotProps parses a v-slot value of the form "{ a, b: alias }".
+// It returns the prop names and the variable names they are bound to.
+func destructuredSlotProps(val string) (names, aliases []string, ok bool) {
+	val = strings.TrimSpace(val)
+	if !strings.HasPrefix(val, "{") || !strings.HasSuffix(val, "}") {
+		return nil, nil, false
+	}
+	for _, part := range strings.Split(val[1:len(val)-1], ",") {
+		name, alias, renamed := strings.Cut(part, ":")
+		name = strings.TrimSpace(name)
+		alias = strings.TrimSpace(alias)
+		if !renamed {
+			alias = name
+		}
+		if name == "" || alias == "" {
+			continue
+		}
+		names = append(names, name)
+		aliases = append(aliases, alias)
+	}
+	return names, aliases, true
 }
